@@ -17,6 +17,7 @@ pub mod c11_sys;
 pub mod c12;
 pub mod c13;
 pub mod c14;
+pub mod c15;
 
 pub struct Property {
     pub id: &'static str,
@@ -39,5 +40,6 @@ pub fn registry() -> Vec<Property> {
         Property { id: "C12", run: c12::run, subs: c12::subs },
         Property { id: "C13", run: c13::run, subs: c13::subs },
         Property { id: "C14", run: c14::run, subs: c14::subs },
+        Property { id: "C15", run: c15::run, subs: c15::subs },
     ]
 }
